@@ -57,6 +57,7 @@ type vfScriptServer struct {
 	answered int
 
 	// hooks for fault injection; return nil to fall through to the model answer
+	shortRead int // if > 0, READ replies carry at most this many bytes
 	override func(r *ssReq) []byte
 	// after a reply has been written
 	onAnswer func(r *ssReq, p *wResp)
@@ -252,6 +253,9 @@ func (s *vfScriptServer) model(q *wReq) *wResp {
 		if end > uint64(len(d)) {
 			end = uint64(len(d))
 		}
+		if s.shortRead > 0 && end-q.Offset > uint64(s.shortRead) {
+			end = q.Offset + uint64(s.shortRead) // fewer bytes than asked for, though more are there: legal, the client asks again
+		}
 		return &wResp{Type: wtData, ID: q.ID, Data: append([]byte(nil), d[q.Offset:end]...)}
 	case wtWrite:
 		h := s.handles[q.Handle]
@@ -336,6 +340,9 @@ func (s *vfScriptServer) model(q *wReq) *wResp {
 		p := ssClean(q.Path)
 		if strings.Contains(p, "nx") {
 			return ssStatus(q.ID, wsNoSuchFile, "no such file")
+		}
+		if _, isDir := s.dirs[p]; isDir && q.Type == wtRemove {
+			return ssStatus(q.ID, wsFailure, "is a directory") // (the client then tries RMDIR)
 		}
 		delete(s.files, p)
 		return ssStatus(q.ID, wsOK, "")
